@@ -268,3 +268,62 @@ Qed.
 Theorem off_step_stopped_spec sc st :
   os_obs (off_step_stopped sc st) = os_obs st /\ os_cur (off_step_stopped sc st) = fst (vstep1 sc (os_cur st)).
 Proof. split; reflexivity. Qed.
+
+(* ------------------------------------------------------------------ the exhaustion flag *)
+(* running out of fuel before the target is flagged ... *)
+Theorem off_learn_loop_no_fuel ak sc ne tf total s :
+  l_nt s < total -> off_learn_loop 0 ak sc ne tf total s = (mkL (l_os s) (l_nt s) (l_orcs s) true, []).
+Proof. intros H. cbn [off_learn_loop]. apply Z.ltb_lt in H. rewrite H. reflexivity. Qed.
+
+(* ... but with a train frequency >= 1 the fuel that off_learn supplies is never the reason: a collect_rollouts call either takes
+   an oracle entry or finds the oracle list empty *)
+Lemma off_rollout_exh ak sc ne tf : forall orcs steps eps os nt s l,
+  off_rollout ak sc ne tf orcs steps eps os nt = (s, l) ->
+  (l_exh s = true -> l_orcs s = []) /\ (length (l_orcs s) <= length orcs)%nat /\
+  (off_more tf steps eps = true -> l_exh s = false -> (length (l_orcs s) < length orcs)%nat).
+Proof.
+  induction orcs as [|o r IH]; intros steps eps os nt s l H; cbn [off_rollout] in H.
+  - destruct (off_more tf steps eps); inv H; cbn; repeat split; auto; intros; discriminate.
+  - destruct (off_more tf steps eps).
+    + destruct (off_step ak sc os o) as [[os1 t] dn].
+      match type of H with context [off_rollout ?a ?b ?c ?d ?e ?f ?g ?h ?i] =>
+        destruct (off_rollout a b c d e f g h i) as [s1 l1] eqn:E end.
+      inv H. apply IH in E. destruct E as (A & B & _). cbn [length]. repeat split; auto; intros; lia.
+    + inv H. cbn. repeat split; auto; intros; discriminate.
+Qed.
+
+Lemma off_learn_loop_exh ak sc ne tf total : off_more tf 0 0 = true -> forall fuel s s' l,
+  l_exh s = false -> (length (l_orcs s) < fuel)%nat ->
+  off_learn_loop fuel ak sc ne tf total s = (s', l) ->
+  (l_exh s' = true -> l_orcs s' = []) /\ (l_exh s' = false -> total <= l_nt s').
+Proof.
+  intros M. induction fuel as [|f IH]; intros s s' l X L H; [lia|]. cbn [off_learn_loop] in H.
+  destruct (Z.ltb_spec (l_nt s) total) as [N|N].
+  - destruct (off_rollout ak sc ne tf (l_orcs s) 0 0 (l_os s) (l_nt s)) as [s1 l1] eqn:E.
+    apply off_rollout_exh in E. destruct E as (A & B & C).
+    destruct (l_exh s1) eqn:X1.
+    + inv H. split; [intros _; exact (A eq_refl) | intros D; rewrite X1 in D; discriminate D].
+    + destruct (off_learn_loop f ak sc ne tf total s1) as [s2 l2] eqn:E2. inv H.
+      apply (IH s1 s' l2 X1); [|exact E2]. specialize (C M eq_refl). lia.
+  - inv H. split; [intros D; rewrite X in D; discriminate D | intros _; exact N].
+Qed.
+
+(* the flag reported by a learn() call means "the oracle list was used up", and without it the target was reached *)
+Theorem off_learn_flag ak sc ne tf c os nt s l :
+  off_more tf 0 0 = true ->
+  off_learn ak sc ne tf c os nt = (s, l) ->
+  (l_exh s = true -> l_orcs s = []) /\
+  (l_exh s = false -> (if oc_reset c then oc_total c else oc_total c + nt) <= l_nt s).
+Proof.
+  intros M H. unfold off_learn in H. apply (off_learn_loop_exh ak sc ne tf _ M) in H; [exact H | reflexivity | cbn; lia].
+Qed.
+
+(* ------------------------------------------------------------------ model mutation score: pins of the comparators *)
+(* show_trans compares the stored action with the first and the env action with the second implementation list *)
+Example show_trans_pins :
+  let t := mkT 1 2 [1 # 2] 3 true false [5]%Q in
+  show_trans (1 # 1000) (1 # 1000) t ([1 # 2], [5])%Q = (1, 2, 3, true, false, true, true) /\
+  show_trans (1 # 1000) (1 # 1000) t ([5], [1 # 2])%Q = (1, 2, 3, true, false, false, false) /\
+  show_trans (1 # 1000) (1 # 1000) t ([1 # 2], [1 # 2])%Q = (1, 2, 3, true, false, true, false) /\
+  show_trans (1 # 1000) (1 # 1000) t ([5], [5])%Q = (1, 2, 3, true, false, false, true).
+Proof. vm_compute. repeat split; reflexivity. Qed.
